@@ -87,10 +87,14 @@ def check(case):
                           ["raised"], True)
         exc = rig.exception_summaries()
         skipped = it.skipped_posts
-    vio = evprog.Oracle(case, log).run()
+    oracle = evprog.Oracle(case, log)
+    vio = oracle.run()
     if exc:
         vio.append(violation("loop-exception", "exception reached the loop: %s" % exc[:2]))
     classes, nontrivial = classify(case, log)
+    if getattr(oracle, "n_blocked", 0):
+        classes.append("handler blocked by a returned _min_priority")
+        nontrivial = True
     if skipped:
         classes.append("budget-cut")
     return Result(vio or None, classes, nontrivial)
